@@ -179,6 +179,8 @@ class Run:
         return out
 
     def build_query(self, q, witness=True):
+        if os.environ.get('VERIF_CAP_MAX'):      # screening runs: lower every cap (capped queries are reported inconclusive as usual)
+            q.cap = min(q.cap, int(os.environ['VERIF_CAP_MAX']))
         qdir = os.path.join(self.work, 'q_' + re.sub(r'[^A-Za-z0-9_.-]', '_', q.name)[:80] + '_' + hashlib.sha1(q.name.encode()).hexdigest()[:8])
         os.makedirs(qdir, exist_ok=True)
         ud = dict(q.unit_defs)
